@@ -6,7 +6,6 @@ sd = os.path.join(ROOT, 'seeded')
 WHY_MISSED = {
     'C16-g': 'adds a range-for inside dfa_match\'s matching loop: a new nested loop has no loop contract, goto-instrument refuses the function: UNDECIDED (exit 2), not a verdict',
     'C17-h': 'the change is in the rule list of the regex grammar (`number(regex_digit_09)` -> `number()`), i.e. in DSL data, not in a function: that the regex grammar refuses `a{}` is C01 applied to that grammar, not mechanised; the rule list is pinned as a pattern fact, so the check answers UNDECIDED (exit 2), not OK',
-    'C03-j': 'the change is in the `n == 0` branch of dfa_builder::rep (the transition-clearing loop moved to the non-start states): rep as a whole is still not under contract (its job does not finish, 0.4), only its innermost shift loop is (vx_rep_shift); the check answers OK: a miss',
     'C14-b': 'the change is in the parameter list of the helper functor ftors::emplace_back (`Arg&&` -> `const Arg&`, so the std::move in its body copies): signature-level template machinery (C19 territory), outside the extraction',
 }
 rows, results = [], {}
